@@ -236,7 +236,11 @@ func TestVerifC02(t *testing.T) {
 			break
 		}
 		c := &cases[ci]
-		c02Run(t, &c.sc, c.plan, w)
+		if res := c02Run(t, &c.sc, c.plan, w); res != nil && !res.skipped {
+			for _, m := range res.modes {
+				w.emit(m)
+			}
+		}
 		runs++
 		meta.emit(map[string]any{"scn": c.sc.ID, "scenario": c.sc, "plan": c.plan})
 	}
